@@ -22,9 +22,11 @@ CHECKS = {
         "test": "TestC01", "level": "exploration", "engine": "twin",
         "technique": "property-based differential testing: rapid-generated block histories on two replicas",
         "level_text": "Exploration: every generated history (all 8 tx types valid and invalid, evidence, absentees, governance parameter sets) is executed on two independently opened replicas and every output the property names (tx code/data/gas, validator updates, app hash) is compared; failures shrink to a replayable concrete history. Determinism cannot be proven by testing; the search is wide because any node-local influence shows up on almost every history that reaches it.",
-        "level_note": "Both replicas share the Go runtime/architecture; map iteration seeds, directories, open times and allocation history differ. Thorough tier additionally recomputes transcripts in a second OS process.",
+        "level_note": "Both replicas share the Go runtime/architecture; map iteration seeds, directories, open times and allocation history differ. In both tiers a second OS process started with another GOMAXPROCS, GOGC, TZ, locale and working directory re-executes a sample of the histories (12 per run in quick, 40 per shard in thorough; label second_process_histories) and must reproduce the transcript digest.",
         "quick": {"checks": 60, "timeout": 600},
-        "thorough": {"checks": 200, "shards": 15, "timeout": 3000},
+        "thorough": {"checks": 200, "shards": 15, "timeout": 3000, "env": {"VERIF_C01_SAVE_N": "40"}},
+        "second_process": {"test": "TestC01Recheck", "save_env": "VERIF_C01_SAVE", "env_dir": "VERIF_C01_RECHECK",
+                           "env": {"GOMAXPROCS": "3", "TZ": "Pacific/Kiritimati", "GOGC": "25", "LANG": "tr_TR.UTF-8"}},
         "rule": "rapid-generated block histories (genesis, 8-40 blocks, all tx types valid+invalid, evidence, absentees) executed on two independently opened replicas; non-trivial = a block with >=2 successful txs or a multi-staker reward round, plus a contract tx or a validator-set change; distinct = distinct (tx type,outcome) shape hashes",
         "assumptions": COMMON_ASSUME + ["both replicas run in one OS process (thorough tier adds a second process)"],
     },
